@@ -30,6 +30,8 @@ def bound(x, N):
         return 'none'
     if isinstance(x, int) and not isinstance(x, bool):
         return ['lit', x]
+    if isinstance(x, str):
+        x = x.strip()            # a bound written as inline Python: blanks around the expression mean nothing
     if isinstance(x, str) and x.isdigit():
         return ['lit', int(x)]
     if isinstance(x, str) and x.isidentifier():
@@ -146,7 +148,8 @@ class Exporter:
         known = KNOWN_ATTRS.get(n)
         if known is None:
             raise ExportError(f'unknown expression class {n}')
-        extra = set(vars(e)) - known
+        # _helper_calls_rules: bookkeeping of the code generator about a helper function it has emitted (not semantics)
+        extra = set(vars(e)) - known - {'_helper_calls_rules'}
         if extra and not self.lenient:
             raise ExportError(f'{n} has unknown attributes {sorted(extra)}')
         return n
